@@ -365,6 +365,19 @@ def _coherence(w, TypeHint, i, h, row, out):
             out["drift"].append(f"args/children of {sh(h)}: real coincide={why is None}, model {row['argskids']}")
 
 
+def _accepts(w, is_bearable, o, real, hint, lcm):
+    """Does the real checker accept the object for the hint under every draw residue?"""
+    for r in range(lcm):
+        DRAW.value = r
+        x = real if real is not None else w.obj(o)
+        try:
+            if not is_bearable(x, hint):
+                return False
+        except Exception:       # noqa
+            return False
+    return True
+
+
 def _worker(args):
     rows_dir, idxs, seed = args
     warnings.simplefilter("ignore")
@@ -376,7 +389,8 @@ def _worker(args):
     w = World19()
     P = [[w.hint(h, 0) for h in hints], [w.hint(h, 1) for h in hints]]
     real = [w.obj(o) if o["k"] != "iter" else None for o in objs]
-    out = {"rows": {}, "coh": [], "drift": [], "n_calls": 0, "n_sound_pairs": 0, "n_sound_calls": 0, "errors": []}
+    out = {"rows": {}, "coh": [], "drift": [], "n_calls": 0, "n_sound_pairs": 0, "n_sound_calls": 0, "errors": [],
+           "disputed": set()}
     hasany = [r["hasany"] for r in rows]
     for a in idxs:
         ra = rows[a]
@@ -416,7 +430,12 @@ def _worker(args):
                             out["errors"].append(f"is_bearable({short_obj(objs[j - 1])}, {HB!r}) raises {type(ex).__name__}")
                             ok = True
                         if not ok:
-                            bad = (j, r)
+                            # the oracle (Sat) says x fully satisfies A: if the real checker itself rejects x for A,
+                            # oracle and implementation disagree about A (C01 territory) - the pair is not judged on x
+                            if _accepts(w, is_bearable, objs[j - 1], real[j - 1], HA, lcm):
+                                bad = (j, r)
+                            else:
+                                out["disputed"].add(f"{short_obj(objs[j - 1])} / {sh(hints[a])}")
                             break
                     if bad:
                         break
@@ -739,6 +758,7 @@ def _judge(rep, tier, seed, meta, rows, results):
     HQ = [None] * n
     unsound = {}
     coh, drift_msgs, errors = [], [], []
+    disputed = set()
     calls = spairs = scalls = 0
     for res in results:
         for a, r in res["rows"].items():
@@ -748,6 +768,7 @@ def _judge(rep, tier, seed, meta, rows, results):
         coh += res["coh"]
         drift_msgs += res["drift"]
         errors += res["errors"]
+        disputed |= res["disputed"]
         calls += res["n_calls"]
         spairs += res["n_sound_pairs"]
         scalls += res["n_sound_calls"]
@@ -811,6 +832,10 @@ def _judge(rep, tier, seed, meta, rows, results):
         rep.spec_drift(f"{dE} of {n * n} TypeHint == answers differ from the 0.23.0 model")
     for m in sorted(set(drift_msgs))[:10]:
         rep.spec_drift(m)
+    if disputed:
+        rep.spec_drift(f"{len(disputed)} (object, hint A) pairs: Sat of Semantics.tla says the object fully satisfies A but "
+                       f"is_bearable(x, A) rejects it - not judged for soundness: {sorted(disputed)[:4]}")
+        rep.note(f"oracle / checker disagreement on 'x satisfies A' (not judged): {sorted(disputed)[:4]}")
     for m in sorted(set(errors))[:5]:
         rep.note("is_bearable raised during the soundness replay: " + m)
 
@@ -1034,7 +1059,8 @@ def _twins(rep, meta, rows, R):
                                 xo = real[jx - 1] if real[jx - 1] is not None else w.obj(objs[jx - 1])
                                 calls += 1
                                 if not is_bearable(xo, H[b]):
-                                    bad = jx
+                                    if _accepts(w, is_bearable, objs[jx - 1], real[jx - 1], H[x], lcm):
+                                        bad = jx
                                     break
                             if bad:
                                 break
